@@ -47,6 +47,8 @@ func init() {
 			{ID: "C16-R23", Title: "script numbers are narrowed only under a range test (shared with C08-R15)", Floor: 10, Run: converterNarrowingIsRangeChecked},
 			{ID: "C16-R24", Title: "error objects that are returned are not dropped", Floor: 1, Run: errorObjectsAreNotDropped},
 			{ID: "C16-R25", Title: "failures noted in sort callbacks stick", Floor: 1, Run: failuresNotedInCallbacksStick},
+			{ID: "C16-R26", Title: "literals are assembled in source order (shared with C01-R29)", Floor: 3, Run: literalsAreAssembledInSourceOrder},
+			{ID: "C16-R27", Title: "script-supplied sizes are tested before make", Floor: 3, Run: scriptSizesAreTestedBeforeMake},
 		},
 	})
 }
